@@ -357,6 +357,78 @@ def run_tree(tree: Dict[str, Any]) -> Dict[str, Any]:
     return res
 
 
+def real_corpus(quick: bool) -> List[Tuple[str, List[str]]]:
+    """real-world packages, as they are on disk: pydoctor's test packages, standard-library packages, pydoctor itself"""
+    import sysconfig
+    std = Path(sysconfig.get_paths()["stdlib"])
+    tp = REPO / "pydoctor" / "test" / "testpackages"
+    out: List[Tuple[str, List[str]]] = []
+    for d in sorted(tp.iterdir()):
+        if d.is_dir() and (d / "__init__.py").exists():
+            out.append(("testpackage:" + d.name, [str(d)]))
+    names = ["json", "wsgiref", "tomllib"] if quick else [
+        "json", "wsgiref", "tomllib", "logging", "email", "unittest", "xml", "importlib", "concurrent", "urllib", "http", "html",
+        "collections", "sqlite3", "zoneinfo", "dbm", "curses", "ctypes", "multiprocessing", "asyncio", "re", "pathlib", "tkinter"]
+    for n in names:
+        if (std / n).is_dir() and (std / n / "__init__.py").exists():
+            out.append(("stdlib:" + n, [str(std / n)]))
+    for n in (["textwrap.py"] if quick else ["textwrap.py", "typing.py", "enum.py", "dataclasses.py", "argparse.py", "inspect.py"]):
+        if (std / n).exists():
+            out.append(("stdlib:" + n, [str(std / n)]))
+    if not quick:
+        out.append(("stdlib:json+logging", [str(std / "json"), str(std / "logging")]))
+        out.append(("pydoctor", [str(REPO / "pydoctor")]))
+    return out
+
+
+def run_real(job: Tuple[str, List[str], str]) -> Dict[str, Any]:
+    """worker: the real driver.main on real packages; never raises"""
+    import warnings
+    warnings.simplefilter("ignore")
+    label, paths, docformat = job
+    tmp = tempfile.mkdtemp(prefix="c01r-")
+    res: Dict[str, Any] = {"outcome": None, "label": label, "docformat": docformat}
+    try:
+        out = Path(tmp, "out")
+        args = ["--html-output", str(out), "--docformat", docformat, "--project-name", "p", "--quiet", "--quiet",
+                "--make-html", "--make-intersphinx"] + paths
+        buf = io.StringIO()
+        signal.signal(signal.SIGALRM, _alarm)
+        signal.alarm(600)
+        try:
+            from pydoctor import driver
+            cwd = os.getcwd()
+            os.chdir(tmp)            # no stray setup.cfg / pyproject.toml is picked up
+            try:
+                with contextlib.redirect_stdout(buf), contextlib.redirect_stderr(buf):
+                    code = driver.main(args)
+            finally:
+                os.chdir(cwd)
+            res["outcome"] = "exit:%s" % code
+        except _Timeout:
+            res["outcome"] = "hang"
+        except SystemExit as e:
+            res["outcome"] = "SystemExit:%s" % e.code
+        except RecursionError as e:
+            res["outcome"] = "crash:RecursionError:" + where(e)
+        except BaseException as e:
+            root = e
+            if type(e).__name__ == "FlattenerError" and e.args and isinstance(e.args[0], BaseException):
+                root = e.args[0]
+            res["outcome"] = "crash:%s:%s" % (type(root).__name__, where(e))
+            res["detail"] = (str(root) or "")[:300]
+        finally:
+            signal.alarm(0)
+        res["written"] = {n: (out / n).exists() for n in ("index.html", "objects.inv", "all-documents.html", "searchindex.json")}
+        res["pages"] = len(list(out.glob("*.html"))) if out.exists() else 0
+        res["tail"] = buf.getvalue()[-300:]
+    except BaseException as e:
+        res["outcome"] = "harness:%s:%s" % (type(e).__name__, e)
+    finally:
+        shutil.rmtree(tmp, ignore_errors=True)
+    return res
+
+
 def where(e: BaseException) -> str:
     tb = traceback.extract_tb(e.__traceback__)
     frames = [f for f in tb if "/pydoctor/" in f.filename and "/verif/" not in f.filename]
@@ -393,10 +465,43 @@ def judge(ctx: Ctx, tree: Dict[str, Any], r: Dict[str, Any]) -> None:
         ctx.fail("good-file-not-documented", inp, "pkg/good.py parses but pkg.good.html was not written")
 
 
+def corpus_trees() -> List[Dict[str, Any]]:
+    """fixed trees that run first on every run: one per class of past failure (defects repaired, seeded changes)"""
+    BROKEN = "def broken(:\n    pass\n"
+    GOOD = "def ok():\n    'fine'\nclass Fine:\n    def m(self): pass\n"
+    trees = []
+
+    def tree(files, **kw):
+        d = {"files": files, "kind": "corpus", "docformat": kw.pop("docformat", "epytext"), "constructs": 0, "werror": False,
+             "prepend": False, "root": "pkg", "extra_roots": []}
+        d.update(kw)
+        trees.append(d)
+    # an unparsable module first reached through an import of a module that is still being analysed (every import form)
+    for imp in ("from .util import helper", "from pkg.util import helper", "from . import util", "from .util import *", "import pkg.util",
+                "from pkg import util as u"):
+        tree({"pkg/__init__.py": imp + "\n", "pkg/util.py": BROKEN, "pkg/good.py": GOOD})
+        tree({"pkg/__init__.py": "", "pkg/a.py": imp.replace("from .", "from pkg.").replace("from pkg. import", "from pkg import") + "\n",
+              "pkg/util.py": BROKEN, "pkg/good.py": GOOD})
+        tree({"pkg/__init__.py": "", "pkg/zz.py": imp.replace("from .", "from pkg.").replace("from pkg. import", "from pkg import") + "\n",
+              "pkg/util.py": BROKEN, "pkg/good.py": GOOD, "pkg/b.py": "from pkg.util import other\nfrom pkg.zz import helper\n"})
+    # only broken files / a broken package __init__ / broken next to a sub-package
+    tree({"pkg/__init__.py": BROKEN, "pkg/good.py": GOOD})
+    tree({"pkg/__init__.py": "", "pkg/sub/__init__.py": BROKEN, "pkg/sub/m.py": GOOD, "pkg/good.py": GOOD})
+    # every subclass of a class is invisible (superseded definition)
+    tree({"pkg/__init__.py": "", "pkg/good.py": GOOD,
+          "pkg/h.py": "import sys\nclass Base:\n    def m(self): pass\nclass Impl(Base):\n    def m(self): pass\nif sys.platform == 'win32':\n    class Impl:\n        pass\n"})
+    # an annotation that is an empty string / several statements
+    tree({"pkg/__init__.py": "", "pkg/good.py": GOOD, "pkg/ann.py": "a: '' = 1\nb: 'x; y' = 2\ndef f(p: '', q: ' ') -> '': pass\n"})
+    # undecodable bytes after the first two lines; a cookie that lies
+    tree({"pkg/__init__.py": "", "pkg/good.py": GOOD, "pkg/enc.py": "#HEX:" + b"'doc'\nimport os\nX = 'caf\xe9'\n".hex()})
+    tree({"pkg/__init__.py": "", "pkg/good.py": GOOD, "pkg/enc.py": "#HEX:" + "# coding: ascii\nX = 'café'\n".encode("utf-8").hex()})
+    return trees
+
+
 def run(ctx: Ctx) -> None:
     import multiprocessing as mp
     n = 1000 if ctx.quick else 12000
-    trees = [make_tree(ctx.rng) for _ in range(n)]
+    trees = corpus_trees() + [make_tree(ctx.rng) for _ in range(n)]
     # separate stream: lone surrogates in string literals (outside every Lean model)
     for i in range(8 if ctx.quick else 60):
         t = make_tree(ctx.rng)
@@ -417,7 +522,7 @@ def run(ctx: Ctx) -> None:
     with mp.get_context("fork").Pool(min(16, os.cpu_count() or 4)) as pool:
         results = pool.map(run_tree, trees, chunksize=4)
     for t, r in zip(trees, results):
-        nontriv = bool(r.get("bad")) or t["kind"] in ("hostile", "mixed", "surrogate", "encoding") or t["constructs"] >= 3
+        nontriv = bool(r.get("bad")) or t["kind"] in ("hostile", "mixed", "surrogate", "encoding", "corpus") or t["constructs"] >= 3
         ctx.case(repr(sorted(t["files"].items())) + t["docformat"], nontriv,
                  {"kind": t["kind"], "docformat": t["docformat"], "files": {k: v[:200] for k, v in list(t["files"].items())[:3]},
                   "outcome": r["outcome"], "unparsable": r.get("bad")} if nontriv and len(ctx.samples) < 3 else None)
@@ -430,6 +535,33 @@ def run(ctx: Ctx) -> None:
         ctx.count("outcome:" + str(r["outcome"]).split(":")[0] + (":" + str(r["outcome"]).split(":")[1] if str(r["outcome"]).startswith("exit") else ""))
         ctx.count("unparsable-files", len(r.get("bad") or []))
         judge(ctx, t, r)
+    # real-world packages as they are on disk
+    jobs = []
+    for k, (label, paths) in enumerate(real_corpus(ctx.quick)):
+        fmts = [DOCFORMATS[k % len(DOCFORMATS)]] if (ctx.quick or label == "pydoctor") else DOCFORMATS
+        if label == "pydoctor":
+            fmts = ["epytext"]
+        for f in fmts:
+            jobs.append((label, paths, f))
+    with mp.get_context("fork").Pool(min(16, os.cpu_count() or 4)) as pool:
+        rres = pool.map(run_real, jobs, chunksize=1)
+    for (label, paths, f), r in zip(jobs, rres):
+        ctx.case("real " + label + " " + f, True, {"package": label, "docformat": f, "outcome": r["outcome"], "pages": r.get("pages")} if len(ctx.samples) < 4 else None)
+        ctx.count("real-packages")
+        ctx.count("real-pages", int(r.get("pages") or 0))
+        o = r["outcome"]
+        inp = {"real": label, "paths": paths, "docformat": f}
+        if o is None or str(o).startswith("harness"):
+            ctx.count("harness-trouble")
+            continue
+        if o.startswith("crash") or o == "hang" or o.startswith("SystemExit"):
+            ctx.fail("real-package:" + (o if not o.startswith("SystemExit") else "aborts:" + o), inp, f"{label} ({f}): {o} {r.get('detail', '')} | {r.get('tail', '')[-200:]}")
+            continue
+        if o.split(":")[1] not in ("0", "2", "3"):
+            ctx.fail("exit-status:" + o.split(":")[1], inp, "undocumented exit status")
+        for n, ok in (r.get("written") or {}).items():
+            if not ok:
+                ctx.fail("not-written:" + n, inp, f"{label}: {n} missing after a run that returned {o}")
     # the docstring wrappers (parse_docstring / safe_to_stan / format_* of epydoc2stan): the Docstring model that the
     # run-level theorems are about is tied to the real functions by fault injection (C08's stream, run here too so that
     # this check stands on its own): every stage is made to return / raise as the case says, model and code compared,
@@ -470,6 +602,11 @@ def replay(ctx: Ctx, obj) -> int:
     if isinstance(inp, dict) and inp.get("kind") == "fault":
         from . import c08
         return c08.replay(ctx, obj)
+    if isinstance(inp, dict) and "real" in inp:
+        r = run_real((inp["real"], inp["paths"], inp.get("docformat", "epytext")))
+        print("outcome:", r["outcome"], r.get("detail", ""))
+        print(r.get("tail", "")[-600:])
+        return 0 if str(r["outcome"]).startswith("exit") else 1
     if "files" not in inp:
         print(obj)
         return 0
